@@ -756,7 +756,13 @@ func (p *Parser) parseGenDecl(
 		lparen = p.pos
 		p.next()
 		for iota := 0; p.token != token.RParen && p.token != token.EOF; iota++ { //nolint:predeclared
+			start := p.pos
 			list = append(list, fn(keyword, true, iota))
+			if p.pos == start {
+				// the spec parser reported an error without consuming a
+				// token (e.g. "var ( }"): skip the token to make progress.
+				p.next()
+			}
 		}
 		rparen = p.expect(token.RParen)
 		p.expectSemi()
